@@ -211,6 +211,7 @@ type event =
 | EvStreamClose of aid
 | EvBcastBegin of aid * nat
 | EvTimerSleep of aid * nat * nat
+| EvProbe of aid * oid
 
 val dec_bool : nat -> bool
 
@@ -338,11 +339,12 @@ type okind =
 | XCopy
 | XJoin
 | XConsume
+| XReg
 | XOther
 
 type op = { op_k : okind; op_a : aid; op_imm : rval option; op_slot : 
             slot; op_done : bool; op_w : bool; op_htx : nat; op_hftx : 
-            nat; op_timer : nat option }
+            nat; op_timer : nat option; op_reg : (regk * nat) option }
 
 type jstate =
 | JNew
@@ -351,7 +353,7 @@ type jstate =
 
 type sys = { actors : actor map0; handles : (aid * hkind) map0;
              ops : op map0; now : nat; joins : (aid * jstate) map0;
-             reg : aid map0 }
+             reg : aid map0; rlock : bool; rpend : nat }
 
 val set_a_mb : mbox -> actor -> actor
 
@@ -401,6 +403,8 @@ val set_op_hftx : nat -> op -> op
 
 val set_op_timer : nat option -> op -> op
 
+val set_op_reg : (regk * nat) option -> op -> op
+
 val set_actors : actor map0 -> sys -> sys
 
 val set_handles : (aid * hkind) map0 -> sys -> sys
@@ -410,6 +414,12 @@ val set_ops : op map0 -> sys -> sys
 val set_now : nat -> sys -> sys
 
 val set_joins : (aid * jstate) map0 -> sys -> sys
+
+val set_reg : aid map0 -> sys -> sys
+
+val set_rlock : bool -> sys -> sys
+
+val set_rpend : nat -> sys -> sys
 
 val del : 'a1 map0 -> nat -> 'a1 map0
 
@@ -488,6 +498,18 @@ val put_timer : actor -> nat -> timer -> actor
 val handler_deadline : actor -> nat -> nat option
 
 val cbk_eqb : cbk -> cbk -> bool
+
+val running : sys -> aid -> bool
+
+val live_entry : sys -> nat -> aid option
+
+val adj_refs : sys -> aid -> bool -> sys res
+
+val release_entry : sys -> nat -> sys res
+
+val reg_ret : sys -> oid -> op -> regk -> nat -> rval -> sys res
+
+val fresh_actor : spawn_cfg -> nat -> actor
 
 val step : sys -> event -> sys res
 
